@@ -412,36 +412,210 @@ class Judge:
 
 # ------------------------------------------------------------------ running a batch
 def run_batch(rep, real, judge, ctxs, ways_for, label):
-    """ctxs: [{model, objs, expr, names, cls, flags(list)}]; one TLC case per ctx, all objects as start."""
+    """ctxs: [{model, objs, expr, names, cls, flags(list)}]; one TLC case per ctx with every object
+    as referencing object.  TLC evaluates the module while the real code is being run."""
+    from concurrent.futures import ThreadPoolExecutor
     cases = []
     for n, c in enumerate(ctxs):
         c["id"] = n
         cases.append(dict(id=n, objs=c["objs"], expr=c["expr"], names=c["names"],
                           cls=c["cls"], starts=list(range(1, len(c["objs"]) + 1))))
-    answers = tlc_reach(rep, cases, label)
-    for c in ctxs:
-        for flags in c["flags"]:
-            ok, text = real.parse_check(c["expr"], flags)
-            if not ok:
-                raise tlc.MachineryError(f"renderer self-check failed for {text!r}")
-        for start in range(1, len(c["objs"]) + 1):
-            ans = answers[c["id"]][start]
+    with ThreadPoolExecutor(max_workers=1) as ex:
+        fut = ex.submit(tlc_reach, rep, cases, label)
+        observed = []
+        for c in ctxs:
             for flags in c["flags"]:
-                for way in ways_for(c, start, flags):
-                    if way == "find":
-                        obs = real.find(c["model"], c["objs"], start, c["names"], c["cls"], c["expr"], flags)
-                    else:
-                        obs = real.load(way, c["objs"], start, c["names"], c["cls"], c["expr"], flags)
-                    judge.observe(c, start, way, flags, obs, ans)
+                ok, text = real.parse_check(c["expr"], flags)
+                if not ok:
+                    raise tlc.MachineryError(f"renderer self-check failed for {text!r}")
+            for start in range(1, len(c["objs"]) + 1):
+                for flags in c["flags"]:
+                    for way in ways_for(c, start, flags):
+                        if way == "find":
+                            obs = real.find(c["model"], c["objs"], start, c["names"], c["cls"], c["expr"], flags)
+                        else:
+                            obs = real.load(way, c["objs"], start, c["names"], c["cls"], c["expr"], flags)
+                        observed.append((c, start, way, flags, obs))
+        answers = fut.result()
+    for c, start, way, flags, obs in observed:
+        judge.observe(c, start, way, flags, obs, answers[c["id"]][start])
     judge.flush(label + "/paths")
+    return len(observed)
+
+
+# ------------------------------------------------------------------ the check
+WITNESS_MODELS = {}
+
+
+def _witness_ctxs(findings):
+    out = []
+    for f in findings:
+        w = f["witness"]
+        out.append(dict(model="witness:" + f["id"], objs=w["objs"], expr=w["ast"], names=w["names"],
+                        cls=w["cls"], flags=[w["flags"]], witness=True))
+    return out
+
+
+def _mc(rep, quick):
+    invs = ["Terminates", "FixpointWithinBound", "Monotone", "UpIsDotsStar", "ExpansionsIncluded",
+            "DevOnlyRemoves", "ProxyEndsInTarget"]
+    cfgs = ["MC_Rrel.cfg"] if quick else ["MC_Rrel_Wide.cfg", "MC_Rrel_Thorough.cfg"]
+    for cfg in cfgs:
+        r = tlc.model_check("MC_Rrel", cfg=cfg, timeout=3000)
+        tlc.require_ok(r, cfg)
+        rep.add_mc(cfg[:-4], r, invs)
+    if not quick:
+        # the module is not vacuous: each deviation clause breaks the theorem it contradicts
+        for cfg, inv in (("MC_Rrel_SMS.cfg", "ExpansionsIncluded"), ("MC_Rrel_PLN.cfg", "ProxyEndsInTarget")):
+            r = tlc.model_check("MC_Rrel", cfg=cfg, timeout=3000)
+            if r.violated != inv:
+                raise tlc.MachineryError(f"{cfg}: expected invariant {inv} to be violated, got "
+                                         f"violated={r.violated} error={r.error}")
+            rep.extra.setdefault("deviation_breaks", {})[cfg[:-4]] = inv
+
+
+def _contexts(rep, rng, quick):
+    models = curated_models()
+    nrand = 6 if quick else 40
+    for i in range(nrand):
+        models["rand%d" % i] = random_model(rng, rng.randint(3, 7), ["a", "b"], sibling_dups=False)
+    if not quick:
+        for i in range(10):
+            models["dup%d" % i] = random_model(rng, rng.randint(4, 7), ["a", "b"], sibling_dups=True)
+    big = {}
+    for i in range(10 if quick else 80):
+        big["big%d" % i] = random_model(rng, rng.randint(8, 12), ["a", "b", "c"], sibling_dups=not quick and i % 4 == 0)
+    keys = sorted(models)
+    E = Exprs()
+    ctxs = []
+    # (S->I) every AST up to the node bound, in seeded-random contexts of the small universe
+    bound = 2 if quick else 3
+    per = 1 if quick else 1
+    n_enum = 0
+    for n in range(1, bound + 1):
+        for e in E.exprs(n):
+            n_enum += 1
+            for _ in range(per):
+                mk = rng.choice(keys)
+                objs = models[mk]
+                alpha = model_alphabet(objs)
+                if rng.random() < 0.5:
+                    names = rng.choice(all_names(alpha))
+                else:
+                    _, names, _ = guided_case(rng, objs)
+                cls = rng.choice(["Class", "Class", "Package", "OBJECT"])
+                ctxs.append(dict(model=mk, objs=objs, expr=e, names=names, cls=cls, flags=["", "p"], src="enum"))
+    rep.bounds["enumerated_asts"] = dict(max_nodes=bound, count=n_enum)
+    # the small universe exhaustively for a few expressions: every name of <= 3 parts
+    shapes = [E.exprs(2)[i] for i in sorted(rng.sample(range(len(E.exprs(2))), 6 if quick else 60))]
+    for e in shapes:
+        mk = rng.choice(sorted(curated_models()))
+        objs = models[mk]
+        for names in all_names(model_alphabet(objs)[:2]):
+            ctxs.append(dict(model=mk, objs=objs, expr=e, names=names, cls="Class", flags=[""], src="allnames"))
+    # (I->S) walk-guided random expressions of up to ~8 nodes, small and big models
+    nguided = 900 if quick else 12000
+    allm = dict(models)
+    allm.update(big)
+    akeys = sorted(allm)
+    for _ in range(nguided):
+        mk = rng.choice(akeys)
+        objs = allm[mk]
+        e, names, cls = guided_case(rng, objs)
+        if rng.random() < 0.1:
+            cls = "OBJECT"
+        ctxs.append(dict(model=mk, objs=objs, expr=e, names=names, cls=cls, flags=["", "p"], src="guided"))
+    nrandom = 150 if quick else 3000
+    for _ in range(nrandom):
+        mk = rng.choice(akeys)
+        objs = allm[mk]
+        e = random_expr(rng, rng.randint(2, 6), model_alphabet(objs)[:2])
+        names = rng.choice(all_names(model_alphabet(objs)[:2]))
+        ctxs.append(dict(model=mk, objs=objs, expr=e, names=names, cls=rng.choice(["Class", "Package"]),
+                         flags=["", "p"], src="random"))
+    rep.bounds.update(models=len(allm), max_objects=max(len(o) for o in allm.values()) - 1,
+                      contexts=len(ctxs), guided=nguided, random=nrandom)
+    return ctxs
 
 
 def run(rep):
-    raise NotImplementedError
+    quick = rep.tier == "quick"
+    rng = random.Random(rep.seed)
+    rep.rule = ("one case = (RREL expression, +p: or not, model, referencing object, dotted name, target class, "
+                "way of calling the real code: rrel.find / RREL in the grammar / RREL string as scope provider). "
+                "S->I: every RREL AST up to the node bound in seeded contexts, every object of the model as "
+                "referencing object; I->S: walk-guided and uniformly random expressions up to ~8 nodes on "
+                "models of up to 12 objects. Non-trivial: the module lets the reference resolve (Allowed # {}); "
+                "distinct by content.")
+    rep.assumptions = [
+        "single model, all other references of the model resolved before the RREL is evaluated (no Postponed, no +m:)",
+        "object names are strings; the separator is '.'; every name part is non-empty",
+        "a name-matching step takes the first element of the collection with that name (Appendix G); "
+        "sibling names are unique in the quick tier",
+        "the exact object among several accepted ones and the depth-first order are not judged",
+        "the `+p:` path is judged as: list of the objects selected by name (consumed or fixed), followed by the "
+        "target when that is not already its last entry"]
+    findings = common.open_findings(PID)
+    _mc(rep, quick)
+    real = D.Real()
+    judge = Judge(rep, findings)
+    ctxs = _witness_ctxs(findings) + _contexts(rep, rng, quick)
+    every = 6 if quick else 3
+
+    def ways_for(c, start, flags):
+        if c.get("witness"):
+            return ["find", "grammar", "provider"]
+        if c["cls"] != "OBJECT" and c["id"] % every == 0:
+            return ["find", "grammar", "provider"]
+        return ["find"]
+    n = run_batch(rep, real, judge, ctxs, ways_for, "RrelOracle")
+    rep.exhaustive = False
+    rep.bounds["evaluations"] = n
 
 
 def replay(path):
-    raise NotImplementedError
+    with open(path) as f:
+        rec = json.load(f)
+    full = rec["case"]
+    case = full["case"]
+    common.ensure_repo_on_path()
+    real = D.Real()
+    objs, expr, names, flags = full["objs"], full["ast"], full["names"], full["flags"]
+    print("model:\n" + D.model_text(objs))
+    print("expression:", D.expr_text(expr, flags), " name:", ".".join(names), " target class:", case["cls"],
+          " referencing object:", case["start"], " way:", case["way"])
+    if case["way"] == "find":
+        obs = real.find("replay", objs, case["start"], names, case["cls"], expr, flags)
+    else:
+        obs = real.load(case["way"], objs, case["start"], names, case["cls"], expr, flags)
+    print("observed:", obs)
+    res, _ = tlc.oracle("RrelOracle", [dict(id=0, q="reach", objs=objs, expr=expr, names=names, cls=case["cls"],
+                                            starts=[case["start"]])])
+    ans = res[0]["per"][0]
+    print("Rrel.tla: accepted per alternative", ans["acc"], "deciding", ans["alt"], "may resolve to", ans["allowed"])
+    if obs["res"] < 0:
+        return 1
+    if obs["proxy"]:
+        pr, _ = tlc.oracle("RrelOracle", [dict(id=0, q="path", objs=objs, expr=expr, names=names, cls=case["cls"],
+                                               start=case["start"], obs=obs["path"])])
+        print("path verdicts:", {k: pr[0][k] for k in ("doc", "sms", "pln", "both")})
+        return 0 if pr[0]["doc"] else 1
+    ok = (obs["res"] == 0 and not ans["allowed"]) or obs["res"] in ans["allowed"]
+    return 0 if ok else 1
 
 
-META = dict(modules=["Rrel", "RrelOracle", "MC_Rrel"], level_text="", level_note="", technique="")
+META = dict(
+    modules=["Rrel", "RrelOracle", "MC_Rrel"],
+    level_text=("Rrel.tla gives every RREL node a one-step relation over configurations (object, remaining name, "
+                "path) of an object graph, `*` as a least fixpoint, Reach per comma alternative and the result rule "
+                "(any accepted object of the first alternative that accepts one). TLC checks design theorems of the "
+                "module over a bounded universe (termination on cyclic graphs, fixpoint bound, monotonicity, "
+                "^ = (..)*, every finite expansion included, the deviation clause only removes), and evaluates the "
+                "module as oracle for enumerated and seeded-random (expression, model, name) cases whose outcome in "
+                "the real code -- called as rrel.find, as RREL in the grammar and as registered scope provider -- "
+                "is compared for soundness, completeness, precedence and the `+p:` path."),
+    level_note=("Exhaustive only over ASTs of <= 2 (quick) / <= 3 (thorough) nodes, each in seeded contexts; larger "
+                "expressions and models are seeded-random. Single model, no +m:, no Postponed. Which of several "
+                "accepted objects is returned is not judged."),
+    technique="TLC model checking of Rrel.tla theorems + TLC-evaluated oracle (Reach/Allowed/PathWitness) vs. real code",
+)
